@@ -251,8 +251,24 @@ func parseLiteral(token lex.Token) (e any, err error) {
 
 	// if it contains an escape string then strip it out now
 	if strings.Contains(token.Val, `\`) {
-		return expr.Lit(strings.ReplaceAll(token.Val, `\`, "")), nil
+		return expr.Lit(unescape(token.Val)), nil
 	}
 
 	return expr.Lit(token.Val), nil
+}
+
+// unescape removes the backslash of every escape sequence and keeps the escaped character, so that an
+// escaped backslash survives; a lone backslash at the very end is dropped.
+func unescape(s string) string {
+	var sb strings.Builder
+	for i := 0; i < len(s); i++ {
+		if s[i] == '\\' {
+			i++
+			if i == len(s) {
+				break
+			}
+		}
+		sb.WriteByte(s[i])
+	}
+	return sb.String()
 }
